@@ -124,6 +124,14 @@ def history(rng: random.Random, universe, n_ops, swarm, model: Model | None = No
             ops.append({'op': 'restart'})
         else:
             ops.append({'op': 'checkpoint'})
+    if swarm.get('external') and len(ops) > 2:
+        # one of the later mutations is performed by a second process
+        cands = [i for i, op in enumerate(ops) if i >= 1 and op['op'] in ('add', 'remove')
+                 and not op.get('siblings')]
+        if cands:
+            i = rng.choice(cands)
+            inner = {k: v for k, v in ops[i].items() if k in ('op', 'res', 'spec')}
+            ops[i] = {'op': 'external', 'do': inner}
     return ops
 
 
